@@ -46,7 +46,7 @@ pub struct Fail {
     pub cfgs: Vec<usize>,
 }
 
-fn execute(robot: &Arc<KinematicsWithShape>, case: &Case, cfg: &SimCfg) -> SimOut<Vec<[f64; 6]>> {
+fn execute(robot: &Arc<KinematicsWithShape>, case: &Case, cfg: &SimCfg) -> SimOut<Offered> {
     let robot = robot.clone();
     let (i, f, t) = (case.initial, case.from, case.to);
     let second = case.second_call;
@@ -56,8 +56,17 @@ fn execute(robot: &Arc<KinematicsWithShape>, case: &Case, cfg: &SimCfg) -> SimOu
             // behind whatever state the implementation keeps
             let _ = robot.non_colliding_offsets(&i, &t, &f);
         }
-        robot.non_colliding_offsets(&i, &f, &t)
+        let v = robot.non_colliding_offsets(&i, &f, &t);
+        // what the same robot's full check says about each offered vector
+        let reported = v.iter().map(|q| robot.collides(q)).collect();
+        Offered { v, reported }
     })
+}
+
+#[derive(Clone, Debug, Default)]
+pub struct Offered {
+    pub v: Vec<[f64; 6]>,
+    pub reported: Vec<bool>,
 }
 
 #[derive(Clone, Debug)]
@@ -123,7 +132,7 @@ pub fn judge(case: &Case) -> Vec<Fail> {
 fn judge_with(
     case: &Case,
     robot: &mut Arc<KinematicsWithShape>,
-    observe: &mut dyn FnMut(usize, &SimOut<Vec<[f64; 6]>>),
+    observe: &mut dyn FnMut(usize, &SimOut<Offered>),
     stats: &mut dyn FnMut(&[(Tri, bool, bool)]),
 ) -> Vec<Fail> {
     let mut fails = judge_phase(case, robot, observe, stats);
@@ -162,7 +171,7 @@ fn judge_with(
 fn judge_phase(
     case: &Case,
     robot: &Arc<KinematicsWithShape>,
-    observe: &mut dyn FnMut(usize, &SimOut<Vec<[f64; 6]>>),
+    observe: &mut dyn FnMut(usize, &SimOut<Offered>),
     stats: &mut dyn FnMut(&[(Tri, bool, bool)]),
 ) -> Vec<Fail> {
     let oc = OracleCell::new(&case.cell);
@@ -183,7 +192,20 @@ fn judge_phase(
                 fails.push(Fail { clause: clause.into(), signature: format!("C14/{clause}"), detail: msg, cfgs: vec![ci] });
                 continue;
             }
-            Ok(g) => g.clone(),
+            Ok(g) => {
+                if let Some(k) = g.reported.iter().position(|r| *r) {
+                    let b = oracle::brute_q(&oc, &g.v[k], &case.cell.safety);
+                    if !b.any_dont_care() {
+                        fails.push(Fail {
+                            clause: "a:offered-but-reported-colliding".into(),
+                            signature: "C14/offered-but-reported-colliding".into(),
+                            detail: format!("offered vector #{k} {:?} is reported colliding by collides() of the same robot", g.v[k]),
+                            cfgs: vec![ci],
+                        });
+                    }
+                }
+                g.v.clone()
+            }
         };
         // sequence match against the candidate list
         let mut p = 0;
@@ -530,6 +552,7 @@ pub fn run(tier_name: &str, seed: u64) -> i32 {
                         tally.distinct.insert(((scen_hash as u128) << 64) | c.sched_sig as u128);
                     }
                     if let Ok(got) = &out.result {
+                        let got = &got.v;
                         tally.bump("offered_vectors", got.len() as u64);
                         if sample.is_none() && ci == 0 {
                             sample = Some(json!({
